@@ -244,7 +244,7 @@ class Pair:
         out.append(4242)
         snap = self.R("SNAP")
         f = dict(x.split("=", 1) for x in snap.split()[1:])
-        out += ids(f["shl"]) + ids(f["bwl"]) + [int(f["lost"])]
+        out += ids(f["shl"]) + ids(f["bwl"]) + [int(f["lost"]), int(f["kicks"])]
         for w in f["w"].split(";"):
             wt, bufs = w.split(":", 1)
             out.append(0 if wt == "-" else rev.get(int(wt), 777) + 1)
@@ -685,7 +685,11 @@ def observed_tags(case, res):
         i += 1 + nbwl
         if s[i] > 0:
             tags.add("lost-reported")
-        i += 1
+        if s[i + 1] > nbwl:
+            tags.add("spare-kick")
+        if s[i + 1] == nbwl and nbwl > 0:
+            tags.add("kicks=queued")
+        i += 2
         busy = 0
         for w in range(case["nw"]):
             if s[i] != 0:
@@ -708,7 +712,7 @@ def parse_rec_part(case, s):
     nshl = s[i]
     i += 1 + nshl
     nbwl = s[i]
-    i += 1 + nbwl + 1
+    i += 1 + nbwl + 2
     busy = direct = 0
     for w in range(case["nw"]):
         busy += 1 if s[i] else 0
